@@ -176,6 +176,7 @@ func Gen(f Focus, thorough bool) *rapid.Generator[Script] {
 				s.NoClose = rapid.Bool().Draw(t, "noclose")
 			}
 			s.Stop = sp
+			s.SecondInstance = rapid.IntRange(0, 2).Draw(t, "second") == 0
 		}
 		return s
 	})
